@@ -90,6 +90,9 @@ def corruptions(rng, data, tier):
     for i in idx:
         yield "delete@%d" % i, data[:i] + data[i + 1:]
         yield "dup@%d" % i, data[:i + 1] + data[i:]
+    yield "deep-open", b"[" * 3000 + data            # far more unclosed brackets than any parser's recursion limit
+    yield "deep-open-obj", b'{"a":' * 3000 + data
+    yield "deep-tags", b"<a>" * 3000 + data
     yield "append-open", data + b"{["
     yield "prepend-close", b"]}" + data
     yield "append-tag", data + b"<unclosed>"
